@@ -338,13 +338,18 @@ func applyContentFault(f *Fault, c []byte) []byte {
 
 func (k *Kernel) doReadFile(t *task, path string) Rep {
 	k.ioOps++
+	// a planned fault names the path as the program spells it or the file it resolves to
+	f := k.matchFault(OpReadFile, path)
 	if rp, st := k.disk.Resolve(path, true); st != 0 {
 		return Rep{Status: st}
 	} else if rp != path {
 		k.probe("reads_through_symlink")
 		path = rp
+		if f == nil {
+			f = k.matchFault(OpReadFile, path)
+		}
 	}
-	if f := k.matchFault(OpReadFile, path); f != nil {
+	if f != nil {
 		switch f.Kind {
 		case FReadEIO:
 			k.fired(f)
